@@ -13,7 +13,9 @@
    Overview.  Part 1: "never two, never both" (at_most_one_outcome) - proved for every configuration.
    Part 2: maps_in_sync - proved under oracle freshness.  Part 3: progress - the invariant
    no_orphans is proved for the repaired configuration and refuted for the pinned behaviour
-   (D2a); the counters that bound retransmission by timeouts are proved (timeout_bounded_partial).
+   (D2a); drain (liveness: when only time passes, everything held is settled within a bounded number
+   of ticks and nothing remains, not even a filter exemption) is proved; the counters that bound
+   retransmission by timeouts are proved (timeout_bounded_partial).
    Part 4: wire_bound (the per-key datagram count over a whole run) and timeout_justified - proved
    (Proofs/HandlerA_Wire*.v).
 
@@ -28,7 +30,7 @@
    of its step).  [C04_nonterminal_response_is_partial_nodes] ties this to the content. *)
 From Coq Require Import List Arith NArith Bool.
 From Discv5V Require Import Model.Handler Proofs.HandlerInv Proofs.HandlerA_Ledger Proofs.HandlerA_Nonce
-  Proofs.HandlerA_Progress Proofs.HandlerB_Trace3 Proofs.HandlerA_Wire2 Proofs.HandlerA_Wire3 Proofs.HandlerA_Wire4
+  Proofs.HandlerA_Progress Proofs.HandlerA_Drain Proofs.HandlerA_Drain2 Proofs.HandlerB_Trace3 Proofs.HandlerA_Wire2 Proofs.HandlerA_Wire3 Proofs.HandlerA_Wire4
   Proofs.HandlerA_Wire.
 Import ListNotations.
 
@@ -178,8 +180,7 @@ Print Assumptions C04_pinned_orphan_refuted.
    or - no session yet - an active session-initiating request (whose timer re-sends it and finally
    fails it together with the queue: fail_request -> fail_session).  By C04_maps_in_sync every
    active request has its entry (= its armed timer) in the nonce map.  This is the invariant; that
-   firing the armed timers empties both maps within a bounded number of steps ("drain") is not
-   proved. *)
+   firing the armed timers empties both maps within a bounded number of steps is [C04_drain] below. *)
 Theorem C04_no_orphans :
   forall c evs, fixed_cfg c ->
   let h := fst (run c init_state evs) in
@@ -230,6 +231,71 @@ Example C04_no_orphans_instance :
    pending h = [] /\ map rc_rid (concat (map snd (active h))) = [101%N]).
 Proof. split; [exact no_orphans_example|exact fixed_no_orphan]. Qed.
 Print Assumptions C04_no_orphans_instance.
+
+(* ------------------------------------------------------------------------------------------ *)
+(* Part 3, continued: drain - "never neither" as a liveness statement (Proofs/HandlerA_Drain*.v).
+
+   If, after any run of the repaired configuration (any events, times and fresh draws, all event
+   times <= T), nothing more arrives from the application or the network and only time passes - a
+   sequence of ticks, the first later than T + grid + timeout, each further one later than its
+   predecessor by more than grid + timeout ([tick_schedule]), with fresh draws for the requests an
+   expiring challenge releases - then after [drain_bound c h] = (requests held) * (retries + 1) +
+   (challenges) ticks the handler holds nothing: no active request, no queued request, no challenge,
+   no timer, NO FILTER EXEMPTION (the second sentence of C13), and every request of the application
+   that was held has received its terminal event during those ticks.  Together with
+   [C04_at_most_one_terminal_event]: exactly one.
+   Each tick fires at least one timer, so the fuel of the timer loop (TICK_FUEL) needs no assumption.
+   Hypotheses: [fixed_cfg] (D2a: the pinned behaviour orphaned queued requests, see
+   [C04_pinned_orphan_refuted]; D6 for the exemptions), [fresh_run] for the run and for the ticks
+   (a repeated nonce overwrites a timer: a statement about rand), the spacing of the ticks, enough
+   ticks.  Not needed: freshness of request ids, positivity of timeout or retries. *)
+Theorem C04_drain :
+  forall c evs ticks T,
+  fixed_cfg c -> fresh_run c init_state evs -> times_le T evs ->
+  let h := fst (run c init_state evs) in
+  tick_schedule c (next_bound c T) ticks -> fresh_run c h ticks ->
+  drain_bound c h <= length ticks ->
+  let h' := fst (run c h ticks) in
+  (active h' = [] /\ pending h' = [] /\ challenges h' = [] /\ nmap h' = [] /\ expected h' = []) /\
+  forall x, In x (ext_rids h) -> In (x, true) (run_tagged c h ticks).
+Proof. exact drain_after. Qed.
+Print Assumptions C04_drain.
+
+(* the same from any state that satisfies the three invariants (maps in sync, no orphans, exemptions
+   exact), with the sharper bound [weight]: every tick strictly decreases the weight *)
+Theorem C04_drain_step :
+  forall c h now d,
+  DrainInv c h -> dl_below now h -> fresh_draws h d -> not_exhausted c h EvTick now d ->
+  let h' := fst (step c h EvTick now d) in let o := snd (step c h EvTick now d) in
+  DrainInv c h' /\ dl_below (next_bound c now) h' /\ weight c h' <= pred (weight c h) /\
+  forall x, eocc x h = eocc x h' + fmen x o.
+Proof. exact drain_step. Qed.
+Print Assumptions C04_drain_step.
+
+(* no silent loss, without any hypothesis: a tick never drops a request of the application without
+   reporting its failure *)
+Theorem C04_tick_no_silent_loss :
+  forall c h now d x, In x (ext_rids h) ->
+  In x (ext_rids (fst (step c h EvTick now d))) \/
+  In (x, true) (tagged (fst (step c h EvTick now d)) (snd (step c h EvTick now d))).
+Proof. exact tick_no_silent_loss. Qed.
+Print Assumptions C04_tick_no_silent_loss.
+
+(* the hypotheses are satisfiable by a non-trivial state: request 100 active, request 101 queued
+   behind a pending challenge for the same peer; 7 ticks; both requests fail within the first two *)
+Example C04_drain_instance :
+  let c := ex_cfg true in
+  let h := fst (run c init_state ex_drain_events) in
+  (fixed_cfg c /\ fresh_run c init_state ex_drain_events /\ times_le 30%N ex_drain_events /\
+   tick_schedule c (next_bound c 30%N) ex_drain_ticks /\ fresh_run c h ex_drain_ticks /\
+   drain_bound c h <= length ex_drain_ticks) /\
+  run_tagged c h ex_drain_ticks = [(100%N, true); (101%N, true)].
+Proof.
+  cbv zeta. destruct ex_drain_hypotheses as (H1 & H2 & _ & _ & H5 & H6). cbv zeta in *.
+  destruct ex_drain_after_hypotheses as (H3 & H4). cbv zeta in *.
+  split; [split; [exact H1|split; [exact H2|split; [exact H3|split; [exact H4|split; [exact H5|exact H6]]]]]|exact (proj1 ex_drain_trace)].
+Qed.
+Print Assumptions C04_drain_instance.
 
 (* ------------------------------------------------------------------------------------------ *)
 (* Part 4: "A request is put on the wire at most 1+retries times per session key, and a timeout is
